@@ -31,6 +31,10 @@ func checkC04(w *World, r *Report) {
 	checkC04CommitOnSuccess(w, r, p)
 	checkC04Guards(w, r, p)
 	checkC04Isolation(w, r, p)
+	// isolation also needs that a transaction never writes storage reachable from the published tree (rule C03.1)
+	o := newOwn(w)
+	o.analyseAll()
+	checkOwnWrites(w, r, o, "C04.7")
 }
 
 // ---- C04.1 ------------------------------------------------------------------------------------------------
